@@ -24,6 +24,7 @@ Generated once by harness/mkprops.py from harness/props_table.py + PGProperties/
 import PGProofs.InferenceThm
 import PGProofs.InferenceLabels
 import PGProofs.CacheThm
+import PGProofs.ShareThm
 
 set_option linter.all false
 set_option pp.fieldNotation.generalized false
@@ -82,6 +83,9 @@ theorem labels_driver : ∀ (v : Inference.Variant) (opt : Inference.Optimizer) 
 /-- shared state spaces do not change answers -/
 theorem cache_transparent : ∀ {E M : Type} [inst : BEq E] [LawfulBEq E] (compute : E → M) (s : Cache.State E M), Cache.Inv compute s → ∀ (ops : List (Cache.Op E)), (Cache.run compute s ops).2 = Cache.specRun compute s.epoch ops := @PG.Cache.C17_refinement
 
+/-- state-space caching on or off: same rate matrices for every parameter set -/
+theorem cache_flag_irrelevant : ∀ {E M : Type} [inst : BEq E] [LawfulBEq E] (compute : Share.SSKey → E → M), Share.Compat compute → ∀ (key0 : Share.SSKey) (e0 : E) (ops : List (Share.Op E)), Share.disciplined none ops = true → (Share.run compute (Share.Inf.init Share.EqVariant.current true key0 e0) ops).2 = (Share.run compute (Share.Inf.init Share.EqVariant.current false key0 e0) ops).2 := @PG.Share.share_cache_flag_irrelevant
+
 end PG.C19
 
 #print axioms PG.C19.best
@@ -101,3 +105,4 @@ end PG.C19
 #print axioms PG.C19.labels_nonvacuous
 #print axioms PG.C19.labels_driver
 #print axioms PG.C19.cache_transparent
+#print axioms PG.C19.cache_flag_irrelevant
